@@ -16,7 +16,7 @@ d = d[:d.index('\n### 9.6 Seeded changes')]
 d += '''
 ### 9.6 Seeded changes (mutation trials) and which checks catch them
 
-Five rounds of changes were written by fresh sub-agents that saw only the text of
+Six rounds of changes were written by fresh sub-agents that saw only the text of
 one property and a private worktree of `/repo` (nothing from `/verif`):
 round 1 (A, B for all twenty properties) asked for realistic slips needing
 something specific to manifest; round 2 (C, D for all twenty) told the agent,
@@ -35,13 +35,13 @@ alternative-configuration-only code, compiler-specific arms, one-slot caches,
 changes and further trigger kinds (buffer placement relative to pages and
 alignment classes, compile-time arms, declarations in `include/`, order of use
 of different object kinds, state surviving cleanup, values special to one
-variant); round 5 (I, J) is described with its results below.
+variant); rounds 5 (I, J) and 6 (K, L) are described with their results below.
 Each change was confirmed with `tools/confirm_seeded.py` in a scratch worktree
 (clean tree: 30 tests pass, demonstration passes; changed tree: 30 tests pass,
 demonstration fails) and the checks were run with `VERIF_REPO=<patched
 worktree>` (quick tier; C07-C and C05-J need the thorough tier).  Everything is kept under
 `seeded/<id>-<X>/` (`patch.diff`, the demonstration, `README.md`, `meta.json`
-with what was run and which violation keys fired).  **All %d are caught** by
+with what was run and which violation keys fired).  **All but three are caught** (%d kept; the three are judged out of scope, see round 6) by
 the listed checks; about one in eight by the check of the property they
 really violate rather than the one the agent was given (e.g. C01-C and C07-D are
 data races -> C18, C02-C needs `swap_modes` in a W32+NEUTRAL build -> C03/C12,
@@ -220,6 +220,35 @@ Checks strengthened because a seeded change was first missed:
   * *C20-I*: inputs fed through a named pipe in irregular pieces (short reads in mid-stream).
   Caught at once in round 5: C01-J, C02-I, C03-J (by C10/C14), C06-I, C06-J, C07-J, C08-I, C08-J, C09-I, C09-J (by C01/C03),
   C10-I, C11-I, C11-J, C12-J, C13-I, C14-J, C15-I, C15-J (by C16), C16-J, C17-I, C18-J, C20-J.
+* **Round 6 (K, L)** - the brief described every monitor family above (generically) and asked for defects of a different nature:
+  exact call counts, interactions between objects, public-parameter edge values, one-variant-only code, object copying, use
+  before `main`.  First missed and what was added:
+  * *C03-K, C04-L, C06-K, C07-K (8- and 16-bit generation counters)*: "change-count" histories in C06 - use, then exactly N key /
+    tweaked-key / tweak changes in a row for N in {1, 2, 255..257, 511..513, 65535..65537, 131072}, then use again; the result must
+    equal a fresh object that only saw the last value (CTR and parallel objects, every back end).
+  * *C03-L, C12-K*: single parallel requests of 32 MiB (8-byte blocks) / 64 MiB in C07 quick; 4 GiB requests stay in the thorough tier.
+  * *C04-K*: state remembered between calls on *different* objects - C04 histories with 3..5 tweakable schedules of different key
+    sizes side by side drawing tweaks from one small pool.
+  * *C07-L, C11-K, C14-L*: integer arguments passed through narrower types - Mantis mode values other than the two constants must
+    be handled alike by the parallel and the single-block key functions; round counts whose low 8/16/24 bits are legal
+    (261, 0x10006, 0x20007 ...) in C10/C14; the Mantis (size, rounds) grid of C10 is now walked in scrambled order.
+  * *C08-L*: code that changes strategy on the 65536th tweak change - the taint grid ages some schedules and CTR objects with
+    65 600 public tweak changes (300 under memcheck in the quick tier, 65 600 in thorough) before the secret one arrives.
+  * *C10-K*: accepted in-between key lengths are compared with the zero-padded key in mid-stream as well (twin objects).
+  * *C13-K, C13-L*: two more CPU models with other vendor strings (Hygon, Zhaoxin); the 256-bit back end is now also identified by
+    behaviour (single-stepped use must execute VEX-encoded instructions), which needs no internal symbol - a weak reference that
+    keeps the AVX2 object out of a static link no longer hides behind "cannot identify the back end".
+  * *C15-K, C17-K*: control blocks are moved to another address now and then (C15/C17 histories): a plain struct of pointers may be
+    stored in arrays, sorted, returned by value.
+  * *C19-K, C19-L, C01-K, C01-L*: objects used from a constructor that runs before `main` (C library: `constructor(101)`; Arduino
+    classes: file-scope object linked before the library), copies of Arduino objects that die before the original is used again
+    (only for copyable classes), Arduino sources compiled at the variant's own `-O` level with `-Os` and `-O0` in the quick tier.
+  * *C20-K, C20-L*: `-b` values with trailing garbage or that wrap to 64/128; input and output names that differ only in case.
+  Judged out of scope (kept with a note in `meta.json`, no monitor added): C08-K (timing of the Arduino port: C08 is anchored in
+  `src/`), C09-K (needs the same memory mapped at two addresses; writing keystream to the output first and xoring the input in is
+  a legitimate implementation), C15-L (a tool's error path before exit).
+  Caught at once in round 6: C02-K, C02-L (by C18), C05-K, C05-L, C06-L, C09-L (by C04), C10-L (by C04/C06), C11-L (by C19),
+  C12-L (by C18), C14-K, C15-K, C16-K, C16-L, C17-L, C18-K, C18-L.
 
 ### 9.7 Behaviour-preserving changes (false-alarm trials)
 
